@@ -32,7 +32,8 @@ UNPROVEN = ['"a refused operation leaves both operands unchanged": the structura
             'effect lists); that nothing else (aliasing through helper calls, C code) touches the operands is observed by by-value snapshots on '
             'every refused and accepted step of the correspondence only',
             'applicability of lentil.Rotate / lentil.Flip (open known finding KF-C08-rotate-flip)']
-ASSUMPTIONS = ['a custom multiply (one that never delegates to Plane.multiply) is modelled by a structural rule read off its source: names that do not exist -> AttributeError; otherwise, if every return hands back the argument, a copy of it, or a Wavefront built with (p|plane)type=<argument>.(p|plane)type, the type is kept without consulting the table (Gen.classCustomKeepsType); else the model refuses with OtherError and the correspondence decides',
+ASSUMPTIONS = ['competing refusals: planes are also built with a pixel scale equal to / different from the wavefront\'s; a "Not allowed" cell must raise TypeError whatever else is wrong with the operands, an allowed cell with inconsistent pixel scales raises ValueError (C07\'s rule; the type model carries no pixel scale, such steps are compared step-wise). Array planes of another shape are not a refusal (fields intersect).',
+               'a custom multiply (one that never delegates to Plane.multiply) is modelled by a structural rule read off its source: names that do not exist -> AttributeError; otherwise, if every return hands back the argument, a copy of it, or a Wavefront built with (p|plane)type=<argument>.(p|plane)type, the type is kept without consulting the table (Gen.classCustomKeepsType); else the model refuses with OtherError and the correspondence decides',
                'propagate_fft on a wavefront carrying fitted tilt raises NotImplementedError whatever its type (the tilt check precedes the type check: generated as Gen.codePropagateFft, theorem fft_typing); with no data at all the harness uses propagate_dft (propagate_fft needs a field to pad)',
                'programs continue after a refusal with the operands as they were (as a Python session that catches the exception)']
 
@@ -78,6 +79,7 @@ def generate(rng, tier):
         # how the operands reached the call: as built, through pickle, through copy.deepcopy / Plane.copy, or (explicit ptypes)
         # with a PType constructed directly instead of by the lentil.ptype() factory
         for o in ops:
+            if o['k'] != 'prop': o['pxs'] = [None, None, 'same', 'diff'][int(rng.integers(0, 4))]
             if o['k'] == 'pt' and rng.integers(0, 2): o['ctor'] = TILT_FAMILY[int(rng.integers(0, len(TILT_FAMILY)))]
             if o['k'] != 'prop': o['via'] = ['plain', 'plain', 'pickle', 'deepcopy', 'direct'][int(rng.integers(0, 5))]
             o['wvia'] = ['plain', 'plain', 'plain', 'pickle', 'deepcopy'][int(rng.integers(0, 5))]
@@ -87,6 +89,14 @@ def generate(rng, tier):
             out.append({'start': s, 'mode': 'bare', 'ops': [{'k': 'cls', 'cls': c, 'arr': False, 'par': 1, 'via': 'plain', 'wvia': 'plain'}, {'k': 'cls', 'cls': 'Tilt', 'arr': False, 'par': 2, 'via': 'plain', 'wvia': 'plain'}]})
             out.append({'start': s, 'mode': 'multi', 'ops': [{'k': 'cls', 'cls': c, 'arr': False, 'par': 1, 'via': 'plain', 'wvia': 'plain'}, {'k': 'prop', 'fft': False, 'par': 0, 'wvia': 'plain'},
                                                              {'k': 'cls', 'cls': 'Image', 'arr': False, 'par': 0, 'via': 'plain', 'wvia': 'plain'}]})
+    # every cell of the table with a competing refusal: the plane's pixel scale differs from the wavefront's. A "Not allowed"
+    # cell must still raise TypeError (the type is checked before anything else); an allowed one raises ValueError
+    for s in WTYPES:
+        for p in PTYPES:
+            out.append({'start': s, 'mode': 'field', 'ops': [{'k': 'pt', 'pt': p, 'arr': False, 'par': 0, 'via': 'plain', 'wvia': 'plain', 'pxs': 'diff'}]})
+        for c in CLASSES:
+            out.append({'start': s, 'mode': 'field', 'ops': [{'k': 'cls', 'cls': c, 'arr': True, 'par': 1, 'via': 'plain', 'wvia': 'plain', 'pxs': 'diff'},
+                                                             {'k': 'cls', 'cls': c, 'arr': False, 'par': 1, 'via': 'plain', 'wvia': 'plain', 'pxs': 'same'}]})
     # a caller-supplied plane type through each constructor of the Tilt family (TiltInterface pops `ptype` from kwargs)
     for s in WTYPES:
         for p in PTYPES:
@@ -101,7 +111,7 @@ def generate(rng, tier):
 
 def _opname(o):
     n = o['cls'] if o['k'] == 'cls' else ((o.get('ctor') or 'pt') + ':' + o['pt'] if o['k'] == 'pt' else 'prop')
-    v = (o.get('via', 'plain')[0] if o.get('via', 'plain') != 'plain' else '') + (o.get('wvia', 'plain')[0].upper() if o.get('wvia', 'plain') != 'plain' else '')
+    v = ('x' if o.get('pxs') == 'diff' else '=' if o.get('pxs') == 'same' else '') + (o.get('via', 'plain')[0] if o.get('via', 'plain') != 'plain' else '') + (o.get('wvia', 'plain')[0].upper() if o.get('wvia', 'plain') != 'plain' else '')
     return n + ('~' + v if v else '')
 
 def signature(c): return c['start'] + '/' + c.get('mode', 'field') + ' ' + ' '.join(_opname(o) for o in c['ops'])
@@ -113,23 +123,33 @@ def tags(c):
     return t
 
 # ------------------------------------------------------------------------------------------ implementation
+def _plane_px(o, w):
+    """pixelscale keyword of the plane: absent, equal to the wavefront's, or different from it (a competing refusal:
+    _mul_pixelscale raises ValueError for inconsistent pixel scales)"""
+    pxs = o.get('pxs')
+    if not pxs or o.get('cls') in ('Rotate', 'Flip'): return {}
+    wp = None if w.pixelscale is None else float(np.asarray(w.pixelscale).ravel()[0])
+    if pxs == 'same': return {'pixelscale': 1e-3 if wp is None else wp}
+    return {'pixelscale': 2e-3 if wp is None else 2.0 * wp}
+
 def _mkplane(o, w):
     import lentil
+    px = _plane_px(o, w)
     amp = np.ones(tuple(w.shape)) if (o['arr'] and len(tuple(w.shape)) == 2 and 0 < int(np.prod(w.shape)) <= 4096) else 1
     par = o['par']
     if o['k'] == 'pt' and o.get('ctor'):
         pt = _direct_ptype(o['pt']) if o.get('via') == 'direct' else getattr(lentil, o['pt'])
-        if o['ctor'] == 'Tilt': return lentil.Tilt(x=1e-7 * par, y=-2e-7 * par, ptype=pt)
-        return getattr(lentil, o['ctor'])(trace=[1.0, 0.0], dispersion=[1.0, 5e-7], ptype=pt)
-    if o['k'] == 'pt': return lentil.Plane(amplitude=amp, ptype=_direct_ptype(o['pt']) if o.get('via') == 'direct' else o['pt'])
+        if o['ctor'] == 'Tilt': return lentil.Tilt(x=1e-7 * par, y=-2e-7 * par, ptype=pt, **px)
+        return getattr(lentil, o['ctor'])(trace=[1.0, 0.0], dispersion=[1.0, 5e-7], ptype=pt, **px)
+    if o['k'] == 'pt': return lentil.Plane(amplitude=amp, ptype=_direct_ptype(o['pt']) if o.get('via') == 'direct' else o['pt'], **px)
     c = o['cls']
-    if c == 'Plane': return lentil.Plane(amplitude=amp, opd=1e-8 * par)
-    if c == 'Pupil': return lentil.Pupil(amplitude=amp, focal_length=1.0 + par)
-    if c == 'Image': return lentil.Image(amplitude=amp)
-    if c == 'Tilt': return lentil.Tilt(x=1e-7 * par, y=-2e-7 * par)
-    if c == 'DispersiveTilt': return lentil.DispersiveTilt(trace=[1.0, 0.0], dispersion=[1.0, 5e-7])
-    if c == 'Grism': return lentil.Grism(trace=[1.0, 0.0], dispersion=[1.0, 5e-7])
-    if c == 'LensletArray': return lentil.LensletArray(amplitude=amp)
+    if c == 'Plane': return lentil.Plane(amplitude=amp, opd=1e-8 * par, **px)
+    if c == 'Pupil': return lentil.Pupil(amplitude=amp, focal_length=1.0 + par, **px)
+    if c == 'Image': return lentil.Image(amplitude=amp, **px)
+    if c == 'Tilt': return lentil.Tilt(x=1e-7 * par, y=-2e-7 * par, **px)
+    if c == 'DispersiveTilt': return lentil.DispersiveTilt(trace=[1.0, 0.0], dispersion=[1.0, 5e-7], **px)
+    if c == 'Grism': return lentil.Grism(trace=[1.0, 0.0], dispersion=[1.0, 5e-7], **px)
+    if c == 'LensletArray': return lentil.LensletArray(amplitude=amp, **px)
     if c == 'Rotate': return lentil.Rotate(angle=90 * par)
     if c == 'Flip': return lentil.Flip(axis=None if par == 0 else par % 2)
     return getattr(lentil, c)()        # a class this harness has no recipe for: default constructor
@@ -191,13 +211,13 @@ def impl(case):
             w.ptype = case['start']
         if mode in ('empty', 'disjoint') and len(w.data) != 0: return {'exc': 'start-not-empty'}
         if str(w.ptype) != case['start']: return {'exc': 'start'}
-        trace, mutated, ptypes, tilts, changed_ok = [], [], [], [], []
+        trace, mutated, ptypes, tilts, changed_ok, pxconf = [], [], [], [], [], []
         for i, o in enumerate(case['ops']):
             w = _route(w, o.get('wvia', 'plain'))
             if o['k'] == 'prop':
                 plane = None
                 sw = _snap_w(w)
-                tilts.append(None)
+                tilts.append(None); pxconf.append(False)
                 try:
                     N = 8
                     du = w.wavelength * w.focal_length / (N * w.pixelscale[0])
@@ -214,6 +234,9 @@ def impl(case):
                 ptypes.append(None)
                 continue
             plane = _route(_mkplane(o, w), o.get('via', 'plain'))
+            pp_, wp_ = getattr(plane, 'pixelscale', None), w.pixelscale
+            pxconf.append(bool(pp_ is not None and wp_ is not None and o.get('cls') not in ('Rotate', 'Flip')
+                               and not np.allclose(np.asarray(pp_, dtype=float), np.asarray(wp_, dtype=float), rtol=0, atol=0)))
             ptypes.append(str(plane.ptype))
             sw, sp = _snap_w(w), _snap_p(plane)
             tilts.append(None)
@@ -226,12 +249,12 @@ def impl(case):
                 trace.append(type(e).__name__)
                 if _snap_w(w) != sw: mutated.append([i, 'wavefront'])
                 if _snap_p(plane) != sp: mutated.append([i, 'plane'])
-        return {'trace': trace, 'mutated': mutated, 'ptypes': ptypes, 'tilts': tilts, 'changed_ok': changed_ok}
+        return {'trace': trace, 'mutated': mutated, 'ptypes': ptypes, 'tilts': tilts, 'changed_ok': changed_ok, 'pxconf': pxconf}
 
 def _stepwise(case, io):
     """programs with explicit ptypes or with an fft applied to a tilt-carrying wavefront are compared step by step from the
     observed state (the class machine carries neither an explicit ptype nor the tilt flag)"""
-    return any(o['k'] == 'pt' for o in case['ops']) or any(t for t in io.get('tilts', []) if t)
+    return any(o['k'] == 'pt' for o in case['ops']) or any(t for t in io.get('tilts', []) if t) or any(io.get('pxconf', []))
 
 def requests(case, io):
     if 'trace' not in io: return []
@@ -267,6 +290,10 @@ def compare(case, io, mo):
         for i, (o, r) in enumerate(zip(case['ops'], io['trace'])):
             m = mo[k]; k += 1
             if not m.get('ok'): return f'model refused: {m}'
+            if io['pxconf'][i] and m['trace'][0] in WTYPES:
+                # the type rule allows the product but the pixel scales are inconsistent: ValueError (the type model has no pixel scale)
+                if r != 'ValueError': return f"step {i} ({_opname(o)}): inconsistent pixel scales, impl {r}, expected ValueError"
+                continue
             if m['trace'] != [r]: return f"step {i} ({_opname(o)}): impl {r} model {m['trace'][0]}"
     return None
 
@@ -316,7 +343,8 @@ def oracle(case, io):
             if o['k'] == 'pt' and io['ptypes'][i] != p:
                 msgs.append(f"step {i}: lentil.{o.get('ctor') or 'Plane'}(ptype=lentil.{p}) has ptype '{io['ptypes'][i]}'")
             want = d['mul'][(cur, p)] or 'TypeError'
-            what = (f"lentil.{o['cls']}.multiply" if o['k'] == 'cls' else f"{o.get('ctor') or 'Plane'}(ptype='{p}').multiply") + f" (documented ptype '{p}') on a '{cur}' wavefront"
+            if io['pxconf'][i] and want != 'TypeError': want = 'ValueError'
+            what = (f"lentil.{o['cls']}.multiply" if o['k'] == 'cls' else f"{o.get('ctor') or 'Plane'}(ptype='{p}').multiply") + f" (documented ptype '{p}') on a '{cur}' wavefront" + (' with a pixel scale different from the wavefront\'s' if io['pxconf'][i] else '')
             if o['k'] == 'cls' and io['ptypes'][i] != p:
                 msgs.append(f"step {i}: {what} gave {r}, documented {want}; lentil.{o['cls']}() has ptype '{io['ptypes'][i]}', documented '{p}'")
                 if r in WTYPES: cur = r
